@@ -23,6 +23,22 @@ def node(orient, align, pad, kids):
     return [1, orient, align, pad, kids]
 
 
+def wleaf(i, rw, length):
+    """a wrapping leaf: `length` cells of text, height = ceil(length / width offered)"""
+    return [2, i, rw, length]
+
+
+def over(ow, oh, t):
+    """the split t constructed with width=ow / height=oh (each None or raw Dimension arguments)"""
+    return [3, [] if ow is None else [ow], [] if oh is None else [oh], t]
+
+
+def unwrap(t):
+    while t[0] == 3:
+        t = t[3]
+    return t
+
+
 def _w(r):
     return r[2][0] if r[2] else 1
 
@@ -31,6 +47,11 @@ def tree_weight(t):
     """-> (weights, entries): an upper bound for the sum of the weights / the number of entries of ANY division in the tree"""
     if t[0] == 0:
         return max(0, _w(t[2])) + max(0, _w(t[3])), 0
+    if t[0] == 2:
+        return max(0, _w(t[2])) + 1, 0
+    if t[0] == 3:
+        a, b = tree_weight(t[3])
+        return a + sum(max(0, _w(o[0])) for o in (t[1], t[2]) if o), b
     ws, ns = 3 + max(0, _w(t[3])) * max(1, len(t[4])), 2 * len(t[4]) + 2
     for k in t[4]:
         a, b = tree_weight(k)
@@ -52,13 +73,17 @@ def report_case(t, axis, width):
 
 
 def has_empty_vsplit(t):
+    if t[0] == 3:
+        return has_empty_vsplit(t[3])
     return t[0] == 1 and ((t[1] == 1 and not t[4]) or any(has_empty_vsplit(k) for k in t[4]))
 
 
 def leaves_dfs(t, parent=None, out=None):
     out = [] if out is None else out
-    if t[0] == 0:
+    if t[0] in (0, 2):
         out.append((t[1], parent))
+    elif t[0] == 3:
+        leaves_dfs(t[3], parent, out)
     else:
         for k in t[4]:
             leaves_dfs(k, t[1], out)
@@ -72,8 +97,62 @@ class _Tree:
     pass
 
 
+def _wrap_class():
+    if "Wrap" in M._patched:
+        return M._patched["Wrap"]
+    from prompt_toolkit.layout.containers import Container
+    from prompt_toolkit.layout.dimension import Dimension
+
+    class Wrap(Container):
+        """`length` cells of text that wrap: the height depends on the width offered."""
+        def __init__(self, wd, length, log, pid):
+            self.other, self.length, self.log, self.pid, self.dim = wd, length, log, pid, None
+
+        def reset(self):
+            pass
+
+        def preferred_width(self, max_available_width):
+            return self.other
+
+        def preferred_height(self, width, max_available_height):
+            return Dimension(preferred=-(-self.length // max(1, width)))
+
+        def write_to_screen(self, screen, mouse_handlers, write_position, parent_style, erase_bg, z_index):
+            self.log.append((self, write_position))
+
+        def get_children(self):
+            return []
+    M._patched["Wrap"] = Wrap
+    return Wrap
+
+
+def _ov_value(r, d, flip):
+    """to_dimension accepts an int for an exact Dimension"""
+    mn, mx, w, p = M.unraw(r)
+    if flip and mn is not None and mn == mx == p and w is None:
+        return mn
+    return d
+
+
 def build_tree(t, bt):
-    """Dimensions are constructed in pre-order (padding, then the children; width before height)."""
+    """Dimensions are constructed in pre-order (overrides, padding, then the children; width before height)."""
+    if t[0] == 2:
+        wd = M._mkdim(t[2])
+        b = _wrap_class()(wd, t[3], bt.log, t[1])
+        bt.codes[id(b)] = t[1]
+        bt.leaves[t[1]] = b
+        bt.keep.append(b)
+        bt.leafkeep = getattr(bt, "leafkeep", []) + [b]
+        return b
+    if t[0] == 3:
+        ow = M._mkdim(t[1][0]) if t[1] else None
+        oh = M._mkdim(t[2][0]) if t[2] else None
+        sp = build_tree(t[3], bt)
+        if t[1]:
+            sp.width = _ov_value(t[1][0], ow, len(bt.keep) % 2 == 0)
+        if t[2]:
+            sp.height = _ov_value(t[2][0], oh, len(bt.keep) % 2 == 1)
+        return sp
     if t[0] == 0:
         wd = M._mkdim(t[2])
         hd = M._mkdim(t[3])
@@ -87,6 +166,7 @@ def build_tree(t, bt):
     ks = [build_tree(k, bt) for k in kids]
     b = M.make_split(orient, align, padd, ks, bt.log)
     bt.keep.append(b)
+    bt.last_split = b
     bt.codes[id(b.small)] = -4
     bt.codes[id(b.split._remaining_space_window)] = -3
     for w in b.all:
@@ -214,8 +294,9 @@ def oracle_tree(case, res, info):
             b = bt.leaves[r[0]]
             d = b.dim if parents[r[0]] == 0 else b.other
             ext = r[4] if parents[r[0]] == 0 else r[3]
-            if not (d.min <= ext <= d.max):
+            if d is not None and not (d.min <= ext <= d.max):
                 return ("leaf %d got size %d along its parent's axis, outside its own min..max %d..%d" % (r[0], ext, d.min, d.max), "tree-bounds")
+    t = unwrap(t)
     if t[0] == 1 and t[4]:
         root = bt.root
         if t[1] == 0:
@@ -223,7 +304,7 @@ def oracle_tree(case, res, info):
         else:
             smin, avail = sum(c.preferred_width(W).min for c in root._all_children), W
         # (a nested split that is too small and fills the whole region looks the same: go by the object drawn)
-        small = len(bt.log) == 1 and bt.log[0][0] is bt.keep[-1].small
+        small = len(bt.log) == 1 and bt.log[0][0] is bt.last_split.small
         if small != (smin > avail):
             return ("the layout %s although the minimums %s (sum of min %d, available %d)" % (
                 "shows 'too small'" if small else "draws its children", "fit" if small else "do not fit", smin, avail), "tree-too-small")
@@ -303,10 +384,30 @@ def random_tree(rng, specs, pads, depth, ids, p_empty=0.06):
     for _ in range(n):
         if depth > 0 and rng.random() < 0.45:
             kids.append(random_tree(rng, specs, pads, depth - 1, ids, p_empty))
+        elif rng.random() < 0.25:
+            kids.append(wleaf(ids[0], rng.choice(specs), rng.randint(0, 14)))
+            ids[0] += 1
         else:
             kids.append(leaf(ids[0], rng.choice(specs), rng.choice(specs)))
             ids[0] += 1
-    return node(rng.randint(0, 1), rng.randint(0, 3), rng.choice(pads), kids)
+    t = node(rng.randint(0, 1), rng.randint(0, 3), rng.choice(pads), kids)
+    if rng.random() < 0.2:
+        exact = [M.raw(n, n, None, n) for n in (0, 2, 4)]
+        t = over(rng.choice([None, rng.choice(specs + exact)]), rng.choice([None, rng.choice(specs + exact)]), t)
+    return t
+
+
+def wrap_trees():
+    """Exhaustive small scope for 'height at the divided width': text of every length next to a column of every exact
+    width in a VSplit, above a flexible leaf in an HSplit."""
+    z = M.raw(0, None, None, None)
+    out = []
+    for length in range(0, 13):
+        for k in range(0, 7):
+            for al in (0, 3):
+                vs = node(1, al, M.PADS[0], [wleaf(0, z, length), leaf(1, M.raw(k, k, None, k), z)])
+                out.append((vs, node(0, 3, M.PADS[0], [vs, leaf(2, z, z)])))
+    return out
 
 
 def small_trees(specs2):
@@ -336,6 +437,11 @@ def gen_cases(chk, add):
     for t in st:
         if rng.random() < frac:
             add("tree_exhaustive_nested_pair", tree_case(rng.choice([0, 0, 1]), t, rng.randint(0, 3), rng.randint(0, 3), rng.randint(0, 7), rng.randint(0, 7)))
+    # text that wraps: the height a VSplit reports and is given depends on the divided width
+    for vs, hs in wrap_trees():
+        for width in ((3, 6, 8, 10, 12) if thorough else (rng.choice([3, 6, 8]), rng.choice([10, 12]))):
+            add("tree_wrap_exhaustive", report_case(vs, 1, width))
+            add("tree_wrap_exhaustive", tree_case(0, hs, rng.randint(0, 3), rng.randint(0, 3), width, rng.choice([4, 8, 14])))
     # random trees up to depth 3, non-zero offsets
     for _ in range(16000 if thorough else 2200):
         t = random_tree(rng, specs, pads, rng.choice([1, 2, 2, 3]), [0])
@@ -373,6 +479,12 @@ def gen_cases(chk, add):
 # --------------------------------------------------------------------------
 
 def describe_tree(t):
+    if t[0] == 2:
+        return "Wrap#%d(width=D%r, %d cells of text)" % (t[1], M.unraw(t[2]), t[3])
+    if t[0] == 3:
+        inner = describe_tree(t[3])
+        extra = "".join(", %s=D%r" % (n, M.unraw(o[0])) for n, o in (("width", t[1]), ("height", t[2])) if o)
+        return inner[:-1] + extra + ")"
     if t[0] == 0:
         return "Leaf#%d(width=D%r, height=D%r)" % (t[1], M.unraw(t[2]), M.unraw(t[3]))
     return "%s([%s], align=%s, padding=D%r)" % ("HSplit" if t[1] == 0 else "VSplit", ", ".join(describe_tree(k) for k in t[4]),
